@@ -19,7 +19,7 @@ cd $S/repo
 if git apply $DIFF 2>$S/apply.err; then AP=0; else AP=1; fi
 ( eval "$RUN" ) > $S/demo_with.log 2>&1; W1=$?
 rm -f $S/repo/$PLACE
-PKGS=$(git diff --name-only | xargs -n1 dirname | sort -u | sed 's#^#./#' | tr '\n' ' ')
+PKGS=$(git diff --name-only | grep '\.go$' | xargs -n1 dirname | sort -u | sed 's#^#./#' | tr '\n' ' ')
 go build ./... > $S/build.log 2>&1; B=$?
 go test -vet=off -count=1 $PKGS > $S/unit.log 2>&1; U=$?
 rsync -a --exclude .git --exclude out --exclude bin --exclude evidence /verif/ $S/verif/
